@@ -365,7 +365,8 @@ class C19(Prop):
                 raise
             if cmode[0] == "none":
                 return render(r)
-            if len(cshown) != 1 or cshown[0] is not r:
+            if len(cshown) != 1 or render(cshown[0]) != render(r):
+                # what the observer is shown is what is released: it must say the same as the record that is returned
                 return render(r) + f" cshown MISMATCH:{len(cshown)}"
             return render(r) + " cshown"
 
@@ -578,8 +579,8 @@ class C19(Prop):
                   o_ = part
                   f = o_.split(" ")
                   if any(x.startswith("MISMATCH") for x in f[9:]):
-                      # the record shown to on_cascade_complete must be the one run() returns (it is what "released" means)
-                      out.append(Violation("completion_observer_is_shown_the_returned_result", "shown once, same record", o_, idx))
+                      # what on_cascade_complete is shown is released too: it must say what the returned record says
+                      out.append(Violation("completion_observer_is_shown_the_returned_result", "shown once, same content", o_, idx))
                   success, fin = f[0] == "1", f[1]
                   res = [x for x in f[6][1:-1].split(",") if x]
                   log = [x for x in f[7][1:-1].split(",") if x]
